@@ -278,15 +278,21 @@ func (e *engine) resolveRef(r capRef) capRef {
 
 // answerPath: what capability the results of B's question q hold at path (model of the recording object).
 func (e *engine) answerPath(q *bq, path []uint16) (capRef, bool) {
+	return e.answerPathOpt(q, path, false)
+}
+
+// answerPathOpt: with ifCompleted, what the results hold *if* the call ran to completion (used to identify the
+// objects named by the Return of a call whose fate was open).
+func (e *engine) answerPathOpt(q *bq, path []uint16, ifCompleted bool) (capRef, bool) {
 	none := capRef{kind: "none"}
-	if q.loose || q.cancelled || (q.finished && !q.returned) {
+	if !ifCompleted && (q.loose || q.cancelled || (q.finished && !q.returned)) {
 		return none, false // indeterminate
 	}
 	e.resolveDest(q)
-	if !q.resolved {
+	if !q.resolved && !ifCompleted {
 		return capRef{kind: "new", ser: q.serial}, true // not known yet: the caller treats "new" as unresolved
 	}
-	if q.dest == objLoose {
+	if q.dest == objLoose && !ifCompleted {
 		return none, false
 	}
 	if q.kind == "boot" {
@@ -304,17 +310,26 @@ func (e *engine) answerPath(q *bq, path []uint16) (capRef, bool) {
 	if len(path) != 1 || path[0] > 1 {
 		return none, true
 	}
-	if path[0] == 1 && q.flags&rpcsim.FlagTwice == 0 {
-		return none, true
-	}
+	first := none
 	switch (q.flags >> rpcsim.FlagCapShift) & 3 {
 	case rpcsim.CapNewObject:
-		return capRef{kind: "new", ser: q.serial}, true
+		first = capRef{kind: "new", ser: q.serial}
 	case rpcsim.CapEchoParam:
-		if q.param.kind == "none" || q.param.kind == "" {
-			return none, true
+		if q.param.kind != "none" && q.param.kind != "" {
+			first = q.param
 		}
-		return q.param, true
+	}
+	if first.kind == "none" {
+		return none, true // no capability in pointer 0: the object puts nothing in pointer 1 either
+	}
+	if path[0] == 0 {
+		return first, true
+	}
+	switch {
+	case q.flags&rpcsim.FlagSecond != 0:
+		return capRef{kind: "new", ser: q.serial | rpcsim.SecondMark}, true
+	case q.flags&rpcsim.FlagTwice != 0:
+		return first, true
 	}
 	return none, true
 }
@@ -705,6 +720,16 @@ func (e *engine) onReturn(m rpcsim.Msg) (err error) {
 					obj = want[i].obj
 				}
 			}
+			if obj < 0 && loose {
+				// the call did complete: the object is the one the model predicts for that pointer
+				for i, pc := range ptrs {
+					if pc == ci {
+						if r, _ := e.answerPathOpt(q, []uint16{uint16(i)}, true); e.resolveRef(r).kind == "A" {
+							obj = e.resolveRef(r).obj
+						}
+					}
+				}
+			}
 			if obj < 0 {
 				if loose {
 					if ent := e.exports[d.ID]; ent != nil && ent.refs > 0 {
@@ -964,6 +989,20 @@ func (e *engine) deliveries() {
 
 // settle waits until everything the model says must have happened has happened.
 func (e *engine) settle() error {
+	// an object that has not acknowledged a delivery keeps everything addressed to it waiting, the receive loop
+	// included: such calls stay unacknowledged only within a burst
+	for _, q := range e.allB {
+		if q.flags&rpcsim.FlagLateAck != 0 && q.held() && !q.opened && !q.returned {
+			e.stats["late-acks"]++
+			e.open(q.serial)
+		}
+	}
+	for _, ac := range e.calls {
+		if ac.flags&rpcsim.FlagLateAck != 0 && ac.flags&rpcsim.FlagHold != 0 && !e.openedSer[ac.serial] {
+			e.stats["late-acks"]++
+			e.open(ac.serial)
+		}
+	}
 	if err := e.barrier(); err != nil {
 		return err
 	}
@@ -995,9 +1034,9 @@ func (e *engine) settle() error {
 				}
 			}
 		}
-		if missing == "" && e.blocked != nil && e.blocked.localEmb.echoed {
+		if missing == "" && e.blocked != nil && (e.blocked.localEmb == nil || e.blocked.localEmb.echoed) && (e.blocked.flags&rpcsim.FlagLateAck == 0 || e.openedSer[e.blocked.serial]) {
 			if e.blocked.answer() == nil {
-				missing = fmt.Sprintf("return of the application's call %d, made on an embargoed capability whose disembargo has arrived", e.blocked.serial)
+				missing = fmt.Sprintf("return of the application's Send of call %d (the embargo was lifted / the object acknowledged)", e.blocked.serial)
 			} else {
 				e.blocked = nil
 			}
